@@ -101,7 +101,7 @@ PROPS = {
         "what": "the three places where flags are read only append Warning/Trace records, are the identity when the flag is off, and fire exactly when specified",
         "theorems": ["warn_effect", "array_warning_iff", "trace_effect"],
         "open": ["flags_transparent: the whole evaluator commutes with erasing flags and filtering the queue", "scalar warn_iff at term level", "trace_is_path"],
-        "slices": ["c17"],
+        "slices": ["c17", "c09"],
         "level_text": "Machine-checked theorems (Lean 4), for every state: warn / the undeclared-array warning / the trace step change nothing but the output queue, add exactly one record of their kind exactly under the stated condition, and are the identity with the flag off. The whole-evaluator transparency theorem is not yet proved; the check rests for it on the correspondence slice and the four-configuration oracle on the implementation (filtered transcripts and final snapshots equal across (w,t) in {0,1}^2, flags set via API fields or TRACE/NOTRACE).",
         "level_note": "PARTIAL proof.",
     },
